@@ -102,23 +102,30 @@ theorem mem_map_valued {l : List Name} {c : Name} {g : Name → Option Name} {k 
   · rintro ⟨t, ht, rfl, rfl⟩; exact ⟨rfl, t, ht, rfl⟩
   · rintro ⟨rfl, t, ht, rfl⟩; exact ⟨t, ht, rfl, rfl⟩
 
+theorem mem_filter_valued {l : List Name} {c : Name} {g : Name → Option Name} {k : Name} {e : Option Name} :
+    (k, e) ∈ (l.map (fun t => (c, g t))).filter (·.2.isSome) ↔ k = c ∧ e.isSome = true ∧ ∃ t ∈ l, e = g t := by
+  simp only [List.mem_filter, mem_map_valued]
+  constructor
+  · rintro ⟨⟨h1, h2⟩, h3⟩; exact ⟨h1, h3, h2⟩
+  · rintro ⟨h1, h3, h2⟩; exact ⟨⟨h1, h2⟩, h3⟩
+
 theorem mem_possPushes {T : List (Name × Definition)} {d : Definition} {k : Name} {e : Option Name} :
     (k, e) ∈ possPushes T d ↔
-      (d.kind = .union ∧ k = d.name ∧ ∃ t ∈ d.types, e = ptrOf T t) ∨
-      ((d.kind = .object ∨ d.kind = .inputObject ∨ d.kind = .interface) ∧ k ∈ d.interfaces ∧ e = some d.name) ∨
-      ((d.kind = .object ∨ d.kind = .inputObject) ∧ k = d.name ∧ e = some d.name) := by
+      (d.kind = .union ∧ k = d.name ∧ e.isSome = true ∧ ∃ t ∈ d.types, e = ptrOf T t) ∨
+      ((d.kind = .object ∨ d.kind = .interface) ∧ k ∈ d.interfaces ∧ e = some d.name) ∨
+      (d.kind = .object ∧ k = d.name ∧ e = some d.name) := by
   unfold possPushes
   cases hk : d.kind <;>
-    simp only [mem_map_keyed, mem_map_valued, List.mem_append, List.mem_singleton, Prod.mk.injEq, List.not_mem_nil,
+    simp only [mem_map_keyed, mem_filter_valued, List.mem_append, List.mem_singleton, Prod.mk.injEq, List.not_mem_nil,
       reduceCtorEq, false_and, true_and, or_false, false_or, or_true, true_or, or_self]
 
 theorem mem_implPushes {T : List (Name × Definition)} {d : Definition} {k : Name} {e : Option Name} :
     (k, e) ∈ implPushes T d ↔
       (d.kind = .union ∧ k ∈ d.types ∧ e = some d.name) ∨
-      ((d.kind = .object ∨ d.kind = .inputObject ∨ d.kind = .interface) ∧ k = d.name ∧ ∃ i ∈ d.interfaces, e = ptrOf T i) := by
+      ((d.kind = .object ∨ d.kind = .interface) ∧ k = d.name ∧ e.isSome = true ∧ ∃ i ∈ d.interfaces, e = ptrOf T i) := by
   unfold implPushes
   cases hk : d.kind <;>
-    simp only [mem_map_keyed, mem_map_valued, List.mem_append, List.mem_singleton, Prod.mk.injEq, List.not_mem_nil,
+    simp only [mem_map_keyed, mem_filter_valued, List.mem_append, List.mem_singleton, Prod.mk.injEq, List.not_mem_nil,
       reduceCtorEq, false_and, true_and, or_false, false_or, or_true, true_or, or_self]
 
 theorem unique_of_nodup {α} {T : List (Name × α)} (hn : (T.map Prod.fst).Nodup) {k : Name} {a b : α}
@@ -210,17 +217,6 @@ end Gql.Load
 namespace Gql.Load
 open Gql
 
-/-- input objects declare no interfaces (guaranteed by the grammar; the loader itself would accept them) -/
-def InputObjectsPlain (s : Schema) : Prop := ∀ p ∈ s.types, p.2.kind = .inputObject → p.2.interfaces = []
-
-theorem inputPlain_state {sd : SchemaDoc} {st : LState} {r1 : Roots} {d1 : List Directive}
-    (hn : (st.types.map Prod.fst).Nodup) (h : InputObjectsPlain (mkSchema sd st r1 d1)) :
-    ∀ p ∈ st.types, p.2.kind = .inputObject → p.2.interfaces = [] := by
-  intro p hp hk
-  have := h (finalDef _ p) (by rw [mkSchema_types_map hn]; exact List.mem_map.mpr ⟨p, hp, rfl⟩)
-  rw [finalDef_kind, finalDef_interfaces] at this
-  exact this hk
-
 section
 variable {sd : SchemaDoc} {s : Schema} {st : LState} {r1 : Roots} {d1 : List Directive}
 
@@ -250,7 +246,7 @@ theorem possibleUnion_exact (F : Facts sd s st r1 d1) {p : Name × Definition} (
   rw [F.mem_possible]
   constructor
   · rintro ⟨p', hp', hmem⟩
-    rcases mem_possPushes.mp hmem with ⟨_, hname, t, ht, he⟩ | ⟨_, hi, _⟩ | ⟨hk', hname, _⟩
+    rcases mem_possPushes.mp hmem with ⟨_, hname, _, t, ht, he⟩ | ⟨_, hi, _⟩ | ⟨hk', hname, _⟩
     · have := F.entry_eq hp hp' hname.symm
       subst this
       obtain ⟨td, htd, _⟩ := (F.defOK p' hp').members t ht
@@ -260,14 +256,13 @@ theorem possibleUnion_exact (F : Facts sd s st r1 d1) {p : Name × Definition} (
       rw [hk] at this; cases this
     · have := F.entry_eq hp hp' hname.symm
       subst this
-      rcases hk' with h | h <;> (rw [hk] at h; cases h)
+      rw [hk] at hk'; cases hk'
   · intro hx
-    refine ⟨p, hp, mem_possPushes.mpr (Or.inl ⟨hk, (F.typesInv.2 p hp).symm, x, hx, ?_⟩)⟩
     obtain ⟨td, htd, _⟩ := (F.defOK p hp).members x hx
-    rw [ptrOf_self F.typesInv htd]
+    exact ⟨p, hp, mem_possPushes.mpr (Or.inl ⟨hk, (F.typesInv.2 p hp).symm, rfl, x, hx,
+      (ptrOf_self F.typesInv htd).symm⟩)⟩
 
 theorem possibleInterface_exact (F : Facts sd s st r1 d1)
-    (hplain : ∀ p ∈ st.types, p.2.kind = .inputObject → p.2.interfaces = [])
     {p : Name × Definition} (hp : p ∈ st.types) (hk : p.2.kind = .interface) (x : Name) :
     x ∈ (mkSchema sd st r1 d1).possible p.1 ↔
       ∃ p' ∈ st.types, ((p'.2.kind == .object || p'.2.kind == .interface) && p'.2.interfaces.contains p.1) = true ∧ p'.1 = x := by
@@ -279,22 +274,16 @@ theorem possibleInterface_exact (F : Facts sd s st r1 d1)
       subst this
       rw [hk] at hk'; cases hk'
     · refine ⟨p', hp', ?_, ?_⟩
-      · rcases hk' with h | h | h
+      · rcases hk' with h | h
         · simp [h, hi]
-        · have := hplain p' hp' h
-          rw [this] at hi; simp at hi
         · simp [h, hi]
       · rw [← F.typesInv.2 p' hp']; exact (Option.some.inj he).symm
     · have := F.entry_eq hp hp' hname.symm
       subst this
-      rcases hk' with h | h <;> (rw [hk] at h; cases h)
+      rw [hk] at hk'; cases hk'
   · rintro ⟨p', hp', hcond, rfl⟩
     simp only [Bool.and_eq_true, Bool.or_eq_true, beq_iff_eq, List.contains_iff_mem] at hcond
-    refine ⟨p', hp', mem_possPushes.mpr (Or.inr (Or.inl ⟨?_, hcond.2, ?_⟩))⟩
-    · rcases hcond.1 with h | h
-      · exact Or.inl h
-      · exact Or.inr (Or.inr h)
-    · exact congrArg some (F.name_eq hp').symm
+    exact ⟨p', hp', mem_possPushes.mpr (Or.inr (Or.inl ⟨hcond.1, hcond.2, congrArg some (F.name_eq hp').symm⟩))⟩
 
 theorem possibleObject_exact (F : Facts sd s st r1 d1) {p : Name × Definition} (hp : p ∈ st.types)
     (hk : p.2.kind = .object) (x : Name) : x ∈ (mkSchema sd st r1 d1).possible p.1 ↔ x = p.1 := by
@@ -310,10 +299,9 @@ theorem possibleObject_exact (F : Facts sd s st r1 d1) {p : Name × Definition} 
     · rw [Option.some.inj he, hname]
   · rintro rfl
     have hname := F.name_eq hp
-    exact ⟨p, hp, mem_possPushes.mpr (Or.inr (Or.inr ⟨Or.inl hk, hname.symm, congrArg some hname.symm⟩))⟩
+    exact ⟨p, hp, mem_possPushes.mpr (Or.inr (Or.inr ⟨hk, hname.symm, congrArg some hname.symm⟩))⟩
 
 theorem implements_exact (F : Facts sd s st r1 d1)
-    (hplain : ∀ p ∈ st.types, p.2.kind = .inputObject → p.2.interfaces = [])
     {p : Name × Definition} (hp : p ∈ st.types) (x : Name) :
     x ∈ (mkSchema sd st r1 d1).implementsOf p.1 ↔
       ((p.2.kind = .object ∨ p.2.kind = .interface) ∧ x ∈ p.2.interfaces) ∨
@@ -321,7 +309,7 @@ theorem implements_exact (F : Facts sd s st r1 d1)
   rw [F.mem_implementsOf]
   constructor
   · rintro ⟨p', hp', hmem⟩
-    rcases mem_implPushes.mp hmem with ⟨hk', hm, he⟩ | ⟨hk', hname, i, hi, he⟩
+    rcases mem_implPushes.mp hmem with ⟨hk', hm, he⟩ | ⟨hk', hname, _, i, hi, he⟩
     · right
       refine ⟨p', hp', by simp [hk', hm], ?_⟩
       rw [← F.typesInv.2 p' hp']; exact (Option.some.inj he).symm
@@ -331,21 +319,89 @@ theorem implements_exact (F : Facts sd s st r1 d1)
       obtain ⟨intf, hl, _⟩ := (F.defOK p' hp').interfaces i hi
       rw [ptrOf_self F.typesInv hl] at he
       rw [Option.some.inj he]
-      refine ⟨?_, hi⟩
-      rcases hk' with h | h | h
-      · exact Or.inl h
-      · have := hplain p' hp' h
-        rw [this] at hi; simp at hi
-      · exact Or.inr h
+      exact ⟨hk', hi⟩
   · rintro (⟨hk, hx⟩ | ⟨p', hp', hcond, rfl⟩)
-    · refine ⟨p, hp, mem_implPushes.mpr (Or.inr ⟨?_, (F.typesInv.2 p hp).symm, x, hx, ?_⟩)⟩
-      · rcases hk with h | h
-        · exact Or.inl h
-        · exact Or.inr (Or.inr h)
-      · obtain ⟨intf, hl, _⟩ := (F.defOK p hp).interfaces x hx
-        rw [ptrOf_self F.typesInv hl]
+    · obtain ⟨intf, hl, _⟩ := (F.defOK p hp).interfaces x hx
+      exact ⟨p, hp, mem_implPushes.mpr (Or.inr ⟨hk, (F.typesInv.2 p hp).symm, rfl, x, hx,
+        (ptrOf_self F.typesInv hl).symm⟩)⟩
     · simp only [Bool.and_eq_true, beq_iff_eq, List.contains_iff_mem] at hcond
       exact ⟨p', hp', mem_implPushes.mpr (Or.inl ⟨hcond.1, hcond.2, congrArg some (F.name_eq hp').symm⟩)⟩
+
+/- ---------------- only object, interface and union types have possible types ---------------- -/
+
+theorem keys_pushKV {β} (k : Name) (v : β) (rel : List (Name × List β)) (x : Name) :
+    x ∈ (pushKV k v rel).map Prod.fst ↔ x = k ∨ x ∈ rel.map Prod.fst := by
+  induction rel with
+  | nil => simp [pushKV]
+  | cons q rest ih =>
+    obtain ⟨k', vs⟩ := q
+    simp only [pushKV]
+    split
+    · rename_i hq
+      have hq : k' = k := by simpa using hq
+      subst hq
+      simp only [List.map_cons, List.mem_cons]
+      constructor
+      · intro h; exact Or.inr h
+      · rintro (h | h)
+        · exact Or.inl h
+        · exact h
+    · simp only [List.map_cons, List.mem_cons, ih]
+      constructor
+      · rintro (h | h | h)
+        · exact Or.inr (Or.inl h)
+        · exact Or.inl h
+        · exact Or.inr (Or.inr h)
+      · rintro (h | h | h)
+        · exact Or.inr (Or.inl h)
+        · exact Or.inl h
+        · exact Or.inr (Or.inr h)
+
+/-- the keys of a relation are the keys that were pushed -/
+theorem keys_pushAll {β} (l : List (Name × β)) (rel : List (Name × List β)) (x : Name) :
+    x ∈ (pushAll l rel).map Prod.fst ↔ x ∈ rel.map Prod.fst ∨ ∃ kv ∈ l, kv.1 = x := by
+  induction l generalizing rel with
+  | nil => simp [pushAll]
+  | cons kv rest ih =>
+    simp only [pushAll, List.foldl_cons] at ih ⊢
+    rw [ih, keys_pushKV]
+    simp only [List.mem_cons, exists_eq_or_imp]
+    constructor
+    · rintro ((h | h) | h)
+      · exact Or.inr (Or.inl h.symm)
+      · exact Or.inl h
+      · exact Or.inr (Or.inr h)
+    · rintro (h | h | h)
+      · exact Or.inl (Or.inr h)
+      · exact Or.inl (Or.inl h.symm)
+      · exact Or.inr h
+
+/-- a key of `PossibleTypes` is the key of a push some definition made -/
+theorem possible_key (types : List (Name × Definition)) {p : Name × List (Option Name)}
+    (hp : p ∈ (buildRelations types).1) : ∃ q ∈ types, ∃ e, (p.1, e) ∈ possPushes types q.2 := by
+  rw [buildRelations_eq] at hp
+  have hk : p.1 ∈ (pushAll ((types.map Prod.snd).flatMap (possPushes types)) []).map Prod.fst :=
+    List.mem_map.mpr ⟨p, hp, rfl⟩
+  rw [keys_pushAll] at hk
+  rcases hk with hk | ⟨kv, hkv, hkey⟩
+  · simp at hk
+  · simp only [List.mem_flatMap, List.mem_map] at hkv
+    obtain ⟨d, ⟨q, hq, rfl⟩, hmem⟩ := hkv
+    exact ⟨q, hq, kv.2, by rw [← hkey]; exact hmem⟩
+
+/-- every key of `PossibleTypes` of a loaded schema is an object, interface or union type -/
+theorem possible_keys_kind (F : Facts sd s st r1 d1) {p : Name × List (Option Name)} (hp : p ∈ st.possible) :
+    ∃ d, st.types.lookup p.1 = some d ∧ (d.kind = .object ∨ d.kind = .interface ∨ d.kind = .union) := by
+  have e1 : st.possible = (buildRelations st.types).1 := congrArg Prod.fst F.rel
+  rw [e1] at hp
+  obtain ⟨q, hq, e, hmem⟩ := possible_key st.types hp
+  have hself : st.types.lookup q.2.name = some q.2 := by
+    rw [F.name_eq hq]; exact lookup_of_mem_nodup F.typesInv.1 hq
+  rcases mem_possPushes.mp hmem with ⟨hk, hname, _⟩ | ⟨_, hi, _⟩ | ⟨hk, hname, _⟩
+  · exact ⟨q.2, by rw [hname]; exact hself, Or.inr (Or.inr hk)⟩
+  · obtain ⟨intf, hl, hki⟩ := (F.defOK q hq).interfaces p.1 hi
+    exact ⟨intf, hl, Or.inr (Or.inl hki)⟩
+  · exact ⟨q.2, by rw [hname]; exact hself, Or.inl hk⟩
 
 end
 end Gql.Load
